@@ -1,4 +1,4 @@
-ENTRY = {'modules': ['VirtioVerif.Props.C03'],
+ENTRY = {'modules': ['VirtioVerif.Props.C03', 'VirtioVerif.Props.C03Inv'],
  'assumptions': ['caller contract of the unsafe fns (buffers stay valid and untouched until popped; pop_used '
                  "gets the same buffers as add) — the harness's structured stream honours it, the malformed "
                  "stream deliberately does not and is compared with the model's explicit panic outcomes",
@@ -7,11 +7,18 @@ ENTRY = {'modules': ['VirtioVerif.Props.C03'],
                  'device-visible memory is observed under sequential consistency (store hook between '
                  'consecutive stores); hardware reordering is outside the model (fence presence/strength is '
                  'extracted from the source text for C02)'],
- 'explanation': 'Theorems for every state (hence every history and every 16-bit index value): '
-                'NotReady/WrongToken change nothing, a successful pop returns the recorded length for '
-                'exactly the token at the head of the used ring and advances last_used_idx by one mod 2^16, '
-                "refusal of add is exactly 'no buffers' or 'capacity test', refused add has no side effect, "
-                'device writes never touch driver-private state; the accounting statements over whole '
-                'histories are compared op by op with the real queue (private counters, available_desc, '
-                'peek, can_pop) including index soaks across several 2^16 wraps, with the device-side chain '
-                'accounting as oracle.'}
+ 'explanation': 'Invariant theorems over ALL histories (Lemmas/QueueInv, QueuePop, QueueReach): the '
+                'structural invariant of the driver state (free list = duplicate-free in-range chain '
+                'disjoint from all outstanding chains, chains pairwise disjoint, num_used exact, shadow and '
+                'device-visible descriptors encode each chain) holds in every state reachable from a fresh '
+                'queue of any size n<=32768 and mode by any sequence of submissions, polls and arbitrary '
+                'device writes to its own areas, and no operation panics under the caller contract. '
+                'count_exact, add_accepts_iff, pop_releases_exactly (exactly the presented chain is '
+                'released, its descriptors become free, others stay). Theorems for every state (hence every '
+                'history and every 16-bit index value): NotReady/WrongToken change nothing, a successful pop '
+                'returns the recorded length for exactly the token at the head of the used ring and advances '
+                "last_used_idx by one mod 2^16, refusal of add is exactly 'no buffers' or 'capacity test', "
+                'refused add has no side effect, device writes never touch driver-private state; the '
+                'accounting statements over whole histories are compared op by op with the real queue '
+                '(private counters, available_desc, peek, can_pop) including index soaks across several 2^16 '
+                'wraps, with the device-side chain accounting as oracle.'}
